@@ -5,105 +5,105 @@ V = os.path.dirname(os.path.dirname(os.path.abspath(__file__)))
 ALL = ["C%02d" % i for i in range(1, 21)]
 CHECKS = {
  "C01": dict(
-   text='TLC model-checks the buffering and padding logic shared by the three digests for every update partition of every message up to 20 bytes at block size 8 (specs/crypto/HashStream.tla); HMAC (RFC 2104), PBKDF2 (RFC 8018) and the algebraic meaning of CRC32C (polynomial division over GF(2)) are TLA+ definitions (Hash.tla) over the digest primitives; messages of every length 0..130 and around the padding / block boundaries, update partitions (one call, byte-wise, <= 3 cuts at boundary offsets, zero-length updates), alignments 0..15, key lengths 0..131, (salt, c, dkLen) grids and CRC alignments x lengths are run through the real code and TLC validates every digest, byte count, HMAC, derived key and CRC.',
-   note='SHA-256 / SHA-1 / MD5 compression are JDK primitives (java.security.MessageDigest) behind Java module overrides; everything above them is TLA+.',
+   text="TLC model-checks the buffering and padding logic shared by the three digests for every update partition of every message up to 20 bytes at block size 8 (specs/crypto/HashStream.tla); HMAC (RFC 2104), PBKDF2 (RFC 8018) and the algebraic meaning of CRC32C (polynomial division over GF(2)) are TLA+ definitions (Hash.tla) over the digest primitives; messages of every length 0..130 and around the padding / block boundaries, update partitions (one call, byte-wise, <= 3 cuts at boundary offsets, zero-length updates), alignments 0..15, key lengths 0..131, (salt, c, dkLen) grids and CRC alignments x lengths are run through the real code and TLC validates every digest, byte count, HMAC, derived key and CRC. SHA-256 is also transcribed from FIPS 180-4 in plain TLA+ (Sha256Ref.tla), cross-checked against the primitive on every length 0..200 and used to decide messages up to 200 bytes; very long messages (2^29 bytes and more: the bit counter's carry) are periodic pattern messages whose digest a primitive computes; one-shot HMAC calls are also made with the digest written over the message and over the key.",
+   note='SHA-1 and MD5 compression and SHA-256 beyond 200 bytes are JDK primitives (java.security.MessageDigest) behind Java module overrides; everything above them is TLA+.',
    technique='TLA+ functional specification over JDK primitives + TLC model checking of the stateful part + trace validation of every call of the real code',
    design='6/C01'),
  "C02": dict(
-   text='TLC model-checks the counter / partial-block logic of AES-CTR (specs/crypto/AesCtrImpl.tla, scaled: every partition of a stream into calls on the portable and the accelerated path yields keystream bytes in block order); AES-CTR itself is the TLA+ definition of AesCtr.tla (keystream block i = AES_k(nonce_be64 || i_be64)); single blocks, streams cut at and around 16-byte boundaries (0-length calls, in place, re-initialisation) and long streams across the 256- and 65536-block counter carries in five call styles are run through the real code and validated by TLC (long streams on windows at the carry offsets).',
-   note='The AES block function is a JDK primitive (javax.crypto AES/ECB).',
+   text='TLC model-checks the counter / partial-block logic of AES-CTR (specs/crypto/AesCtrImpl.tla, scaled: every partition of a stream into calls on the portable and the accelerated path yields keystream bytes in block order); AES-CTR itself is the TLA+ definition of AesCtr.tla (keystream block i = AES_k(nonce_be64 || i_be64)); single blocks, streams cut at and around 16-byte boundaries (0-length calls, in place, re-initialisation) and long streams across the 256- and 65536-block counter carries in five call styles are run through the real code and validated by TLC (long streams on windows at the carry offsets). AES itself is also transcribed from FIPS 197 in plain TLA+ (AesRef.tla: S-box from its definition, key expansion, cipher), cross-checked against the primitive and used to decide every single-block call; Apalache proves the counter logic with the real constants (16-byte blocks, counter byte wrapping at 256) inductive for every stream position (AesCtrGeom.tla); caller buffers at every offset from a 16-byte boundary, whole-block runs ending exactly at a carry followed by a tail, and the first AES use of a freshly executed process with the k-th allocation refused are included.',
+   note='Keystream blocks of AES-CTR use a JDK primitive (javax.crypto AES/ECB) that is cross-checked against AesRef.tla.',
    technique='TLA+ functional specification over JDK primitives + TLC model checking of the stateful part + trace validation of every call of the real code',
    design='6/C02'),
  "C03": dict(
-   text='The C01/C02 specifications and input classes (alignments 0..15, lengths around the 8- and 16-byte thresholds, partitions that switch between accelerated and portable code inside one stream, counter carries) are executed by five builds of the same sources - all features, none, SSE2 only, SSE4.2 only, AES-NI only - each validated by TLC against the same specifications, and all outputs are compared with the portable build.',
+   text='The C01/C02 specifications and input classes (alignments 0..15, lengths around the 8- and 16-byte thresholds, partitions that switch between accelerated and portable code inside one stream, counter carries) are executed by five builds of the same sources - all features, none, SSE2 only, SSE4.2 only, AES-NI only - each validated by TLC against the same specifications, and all outputs are compared with the portable build. HMAC-SHA256 and PBKDF2 inputs are part of the cross-build set.',
    note='x86-64 host with SHA-NI, SSSE3, SSE2, SSE4.2, AES-NI; ARM paths are not compiled.',
    technique='TLA+ functional specification over JDK primitives + TLC model checking of the stateful part + trace validation of every call of the real code',
    design='6/C03'),
  "C10": dict(
-   text='DH.tla defines the public value 2^(2^258+x) mod p and the shared key y^(2^258+x) mod p over a big-integer primitive, with p derived from the RFC 3526 formula; DHMC.tla model-checks agreement and blinding-independence on a small group of the same shape; boundary private, peer and blinding values (blinding scripted by replacing the entropy call at link time), values with leading-zero results and single-bit variations of p for the sanity check are run through the real code and validated by TLC.',
+   text="DH.tla defines the public value 2^(2^258+x) mod p and the shared key y^(2^258+x) mod p over a big-integer primitive, with p derived from the RFC 3526 formula; DHMC.tla model-checks agreement and blinding-independence on a small group of the same shape; boundary private, peer and blinding values (blinding scripted by replacing the entropy call at link time), values with leading-zero results and single-bit variations of p for the sanity check are run through the real code and validated by TLC. Also: the key written over the peer's value, p +- 2^k and p +- random for the sanity check, every one of the first 90 bignum allocations of a call refused in turn (failure reported, or the specified value), and calls made with a stale entry in the bignum library's error queue.",
    note='Modular exponentiation is java.math.BigInteger.modPow.',
    technique='TLA+ functional specification over JDK primitives + TLC model checking of the stateful part + trace validation of every call of the real code',
    design='6/C10'),
  "C11": dict(
-   text='DrbgMC.tla model-checks the reseed / chunk / failure schedule with an abstract HMAC (no output from an unseeded or stale state; a failing source fails the call); Drbg.tla is SP 800-90A HMAC_DRBG in TLA+ over Hash.tla; request-size sequences (0, 1, 31..33, 65535..65537, 131073, runs across several reseed intervals) with the OS entropy source scripted at the open/read level (short reads, error, EOF, open failure at each of its first requests) are run through the real generator and TLC re-runs every call: byte-exact output, entropy requested exactly when and as much as specified, failure exactly when the source failed.',
+   text='DrbgMC.tla model-checks the reseed / chunk / failure schedule with an abstract HMAC (no output from an unseeded or stale state; a failing source fails the call); Drbg.tla is SP 800-90A HMAC_DRBG in TLA+ over Hash.tla; request-size sequences (0, 1, 31..33, 65535..65537, 131073, runs across several reseed intervals) with the OS entropy source scripted at the open/read level (short reads, error, EOF, open failure at each of its first requests) are run through the real generator and TLC re-runs every call: byte-exact output, entropy requested exactly when and as much as specified, failure exactly when the source failed. Also: EINTR and failures after a short read, empty requests and requests of several 65536-byte pieces before a reseed point, descriptors closed and re-used by the application between two reseeds, and random bytes asked for by an exit handler registered before the first use.',
    note='SHA-256 compression is a JDK primitive; RDRAND is excluded from the build.',
    technique='TLA+ functional specification over JDK primitives + TLC model checking of the stateful part + trace validation of every call of the real code',
    design='6/C11'),
  "C19": dict(
-   text="SigV4.tla is the published Signature Version 4 algorithm (canonical request, string to sign, signing-key chain) for the four documented request shapes, with the timestamp derived from the epoch time by civil-date arithmetic, over Hash.tla's HMAC; requests over the URI-unreserved alphabet (lengths 0..200), printable secrets around the HMAC block size, absent / empty / non-empty bodies, expiry extremes and wrapped time() values at day, leap-day and 2038 boundaries are signed by the real code and every returned hash, timestamp, Authorization header and query string is validated by TLC.",
+   text="SigV4.tla is the published Signature Version 4 algorithm (canonical request, string to sign, signing-key chain) for the four documented request shapes, with the timestamp derived from the epoch time by civil-date arithmetic, over Hash.tla's HMAC; requests over the URI-unreserved alphabet (lengths 0..200), printable secrets around the HMAC block size, absent / empty / non-empty bodies, expiry extremes and wrapped time() values at day, leap-day and 2038 boundaries are signed by the real code and every returned hash, timestamp, Authorization header and query string is validated by TLC. A third of the requests repeat the previous one with exactly one argument changed (statelessness across calls), under process time zones west and east of UTC.",
    note='SHA-256 compression is a JDK primitive.',
    technique='TLA+ functional specification over JDK primitives + TLC model checking of the stateful part + trace validation of every call of the real code',
    design='6/C19'),
  "C20": dict(
-   text="Life-cycle conformance: every hash / HMAC event carries whether the finalised context is all zero; AES key expansion / free, AES-CTR init / stream / free, DH generate / compute and failing key-file reads run with the secrets registered as byte patterns (big-endian and limb order) which a scanner looks for in every block released through free() and through OpenSSL's allocator at the moment of release, in the all-features and the software build; TLC validates zero = TRUE and tainted = 0 on every event.",
+   text="Life-cycle conformance: every hash / HMAC event carries whether the finalised context is all zero; AES key expansion / free, AES-CTR init / stream / free, DH generate / compute and failing key-file reads run with the secrets registered as byte patterns (big-endian and limb order) which a scanner looks for in every block released through free() and through OpenSSL's allocator at the moment of release, in the all-features and the software build; TLC validates zero = TRUE and tainted = 0 on every event. While a key file is read every release in the process (libc's own included, through the sanitizer's free hook; stdio's buffer exempt) is scanned and every block that received a copy of the secret must be all zero when released; AES-CTR stream objects must be all zero when released (also right after a re-initialisation); Diffie-Hellman error paths are reached by refusing each bignum allocation in turn.",
    note='The scanner (harness/drv_crypto.c) is the observer; only distinctive 8-byte windows are searched; stack copies are out of scope.',
    technique='trace validation of life-cycle events against the TLA+ trace specification, with a free-time memory scanner as observer',
    design='6/C20'),
  "C15": dict(
-   text="Hostile-input generation defined by the specifications: TLC enumerates every string of length <= 4/5 over 13 JSON structure characters, every bracketed / Unix-path string of length <= 5/6 over 8 address characters and every candidate encoding of length <= 4 over 14 symbols (CodecGen.tla); the check adds every prefix of valid JSON documents with every key, and structured mutations (nesting to depth 64, strings ending in an escape, corrupted / truncated base-64 and serialised addresses, Unix paths around the 108-byte limit, digit runs to 5000 characters, key / passphrase files with over-long, unterminated and NUL-containing lines, hostile argument vectors). Every input is handed to the real parser in an exact-size heap allocation under ASan/UBSan; TLC validates each call's documented value range (pointer inside [buf, end], outlen <= inlen/4*3, verdict in the documented set) and, where C16-C18 define it, the answer (CodecTrace, ParsenumTrace, GetoptTrace).",
-   note="The memory-safety verdict itself comes from ASan/UBSan on the generated executions (observed, not proved); termination by per-run timeouts; no host-name address forms; JSON depth <= 64.",
-   technique="TLA+-defined hostile input spaces enumerated by TLC + sanitizer-instrumented replay + trace validation of value ranges against the TLA+ specs",
-   design="6/C15"),
+   text="Hostile-input generation defined by the specifications: TLC enumerates every string of length <= 4/5 over 13 JSON structure characters, every bracketed / Unix-path string of length <= 5/6 over 8 address characters and every candidate encoding of length <= 4 over 14 symbols (CodecGen.tla); the check adds every prefix of valid JSON documents with every key, and structured mutations (nesting to depth 64, strings ending in an escape, corrupted / truncated base-64 and serialised addresses, Unix paths around the 108-byte limit, digit runs to 5000 characters, key / passphrase files with over-long, unterminated and NUL-containing lines, hostile argument vectors). Every input is handed to the real parser in an exact-size heap allocation under ASan/UBSan; TLC validates each call's documented value range (pointer inside [buf, end], outlen <= inlen/4*3, verdict in the documented set) and, where C16-C18 define it, the answer (CodecTrace, ParsenumTrace, GetoptTrace). Key files and passphrase files are also decided semantically (KeyFile.tla), passphrases also arrive through a named pipe, serialised addresses are cut with a consistent length field, member names continue the key with a NUL byte, and abandoned parses inside option packs are followed by optreset.",
+   note='The memory-safety verdict itself comes from ASan/UBSan on the generated executions (observed, not proved); termination by per-run timeouts; no host-name address forms; JSON depth <= 64.',
+   technique='TLA+-defined hostile input spaces enumerated by TLC + sanitizer-instrumented replay + trace validation of value ranges against the TLA+ specs',
+   design='6/C15'),
  "C17": dict(
-   text="RFC 4648 base-64 (encode, decode, exact well-formedness), hexadecimal and the big-/little-endian byte orders are TLA+ definitions (specs/text/Codec.tla); TLC enumerates every byte string of length <= 4 over 7 byte values and every candidate encoding of length <= 4 over 14 symbols, all of which (plus random longer strings with a corrupted and a truncated encoding each, every width / order / buffer offset 0..15 of the endian routines, numeric IPv4 / IPv6 and Unix-path addresses with print-resolve, serialise-deserialise and duplicate round trips, and generated valid JSON objects with escapes, \\u names and white space everywhere) are run through the real code; TLC validates every call against the definitions (acceptance exact; JSON: first top-level member whose decoded name equals the key, \\u names never match).",
+   text='RFC 4648 base-64 (encode, decode, exact well-formedness), hexadecimal and the big-/little-endian byte orders are TLA+ definitions (specs/text/Codec.tla); TLC enumerates every byte string of length <= 4 over 7 byte values and every candidate encoding of length <= 4 over 14 symbols, all of which (plus random longer strings with a corrupted and a truncated encoding each, every width / order / buffer offset 0..15 of the endian routines, numeric IPv4 / IPv6 and Unix-path addresses with print-resolve, serialise-deserialise and duplicate round trips, and generated valid JSON objects with escapes, \\u names and white space everywhere) are run through the real code; TLC validates every call against the definitions (acceptance exact; JSON: first top-level member whose decoded name equals the key, \\u names never match). Every byte value is tried at several positions of base-64 / hex text; JSON member names include proper prefixes and escape-extended variants of other names.',
    note="Address literals -> bytes by Python's ipaddress module and the JSON generator's own member list are the encoder side of the oracle; numeric addresses only.",
-   technique="TLA+ functional specification + exhaustive enumeration of small input spaces by TLC + trace validation of every call",
-   design="6/C17"),
+   technique='TLA+ functional specification + exhaustive enumeration of small input spaces by TLC + trace validation of every call',
+   design='6/C17'),
  "C16": dict(
-   text="The verdict of PARSENUM / PARSENUM_EX is a TLA+ definition (specs/text/Parsenum.tla over BigNat.tla: grammar per base, exact natural-number value, in-bounds-and-in-type test, EINVAL / ERANGE); floats (ParsenumFloat.tla: the numeral as an exact rational, result within half a unit in the last place) and sizes (Humansize.tla: language and truncating 2-3 digit format) likewise. TLC enumerates the complete structured numeral space (white space x sign x base prefix x digit class at the type limits and at the requested bounds +/- 1 x trailing junk x trailing flag x base x bounds shape x target type); every point is concretised and parsed by every applicable macro form with intmax_t and uintmax_t bounds, together with float/double numerals, sizes at every power of 1000 +/- 1 and the token-pair language of humansize_parse; TLC validates every call's verdict and value against the specification.",
-   note="Bounds for signed targets lie inside the target type; floats in the normal range, C locale; big-integer arithmetic for floats and sizes through java.math.BigInteger (integers in pure TLA+).",
-   technique="TLA+ functional specification + exhaustive enumeration of the structured input space by TLC + trace validation of every call",
-   design="6/C16"),
+   text="The verdict of PARSENUM / PARSENUM_EX is a TLA+ definition (specs/text/Parsenum.tla over BigNat.tla: grammar per base, exact natural-number value, in-bounds-and-in-type test, EINVAL / ERANGE); floats (ParsenumFloat.tla: the numeral as an exact rational, result within half a unit in the last place) and sizes (Humansize.tla: language and truncating 2-3 digit format) likewise. TLC enumerates the complete structured numeral space (white space x sign x base prefix x digit class at the type limits and at the requested bounds +/- 1 x trailing junk x trailing flag x base x bounds shape x target type); every point is concretised and parsed by every applicable macro form with intmax_t and uintmax_t bounds, together with float/double numerals, sizes at every power of 1000 +/- 1 and the token-pair language of humansize_parse; TLC validates every call's verdict and value against the specification. White space classes include vertical tab and form feed on their own.",
+   note='Bounds for signed targets lie inside the target type; floats in the normal range, C locale; big-integer arithmetic for floats and sizes through java.math.BigInteger (integers in pure TLA+).',
+   technique='TLA+ functional specification + exhaustive enumeration of the structured input space by TLC + trace validation of every call',
+   design='6/C16'),
  "C18": dict(
-   text="The option grammar of util/getopt.h is a TLA+ step function (specs/text/Getopt.tla: one getopt() call per step). TLC enumerates every argument vector of length <= 3 over a 33-token alphabet for three option tables (with / without a missing-argument handler), checking that the grammar is well defined, and prints all of them; the real parser processes every one after an optreset that follows a different vector, plus random vectors to length 8, parses abandoned after 0..3 options and parses that are the first of a fresh process; TLC validates every getopt() call (option, argument, default / missing path) and the final operand index against the grammar.",
-   note="Bounded enumeration (length <= 3 exhaustively; to 8 sampled); three compiled option tables; warnings disabled (opterr = 0).",
-   technique="TLA+ grammar specification, exhaustive enumeration of inputs by TLC, trace validation of every parser call against the spec",
-   design="6/C18"),
+   text='The option grammar of util/getopt.h is a TLA+ step function (specs/text/Getopt.tla: one getopt() call per step). TLC enumerates every argument vector of length <= 3 over a 33-token alphabet for three option tables (with / without a missing-argument handler), checking that the grammar is well defined, and prints all of them; the real parser processes every one after an optreset that follows a different vector, plus random vectors to length 8, parses abandoned after 0..3 options and parses that are the first of a fresh process; TLC validates every getopt() call (option, argument, default / missing path) and the final operand index against the grammar.',
+   note='Bounded enumeration (length <= 3 exhaustively; to 8 sampled); three compiled option tables; warnings disabled (opterr = 0).',
+   technique='TLA+ grammar specification, exhaustive enumeration of inputs by TLC, trace validation of every parser call against the spec',
+   design='6/C18'),
  "C08": dict(
-   text='TLC model-checks the request life cycle against every transport outcome (specs/http/HttpAbs.tla: at most one callback, none after cancel, body within the limit, oversize shape, the bound addbody relies on) and generates the structures of well-formed responses from the grammar in HttpGen.tla (1xx interim blocks shorter and longer than the final header block, three framings, chunk plans up to above the 1 MiB wait cap, optional-whitespace forms, body sizes at/below/above the limit); these are concretised to bytes and, together with structured hostile mutations (bad/huge/negative/whitespace chunk sizes, missing CRLF, NUL bytes, >64 KiB headers, 1xx floods, buffer-edge alignment of empty lines, truncation, bit flips), sent under many segmentations (down to single bytes, EAGAIN/EINTR noise, EOF/error/stall endings, connection plans, cancellation instants) to the real http.c stack in a forked ASan/UBSan/LSan child on scripted sockets; TLC validates every trace against HttpTrace.tla, whose Decode operator is the C09 oracle and whose other guards are the C08 clauses (one callback, status range, body limit, oversize shape, no leak, request bytes verbatim).',
-   note="Memory safety is observed by the sanitizers on the executions the specification generates (not proved); limits below 2^31; at most 450 interim responses / 1500 chunks per response; the Python concretiser is the encoder side of the oracle.",
-   technique="TLA+ model checking (TLC) of the life cycle + TLC-generated response structures replayed into the real code + trace validation against the TLA+ spec",
-   design="6/C08"),
+   text='TLC model-checks the request life cycle against every transport outcome (specs/http/HttpAbs.tla: at most one callback, none after cancel, body within the limit, oversize shape, the bound addbody relies on) and generates the structures of well-formed responses from the grammar in HttpGen.tla (1xx interim blocks shorter and longer than the final header block, three framings, chunk plans up to above the 1 MiB wait cap, optional-whitespace forms, body sizes at/below/above the limit); these are concretised to bytes and, together with structured hostile mutations (bad/huge/negative/whitespace chunk sizes, missing CRLF, NUL bytes, >64 KiB headers, 1xx floods, buffer-edge alignment of empty lines, truncation, bit flips), sent under many segmentations (down to single bytes, EAGAIN/EINTR noise, EOF/error/stall endings, connection plans, cancellation instants) to the real http.c stack in a forked ASan/UBSan/LSan child on scripted sockets; TLC validates every trace against HttpTrace.tla, whose Decode operator is the C09 oracle and whose other guards are the C08 clauses (one callback, status range, body limit, oversize shape, no leak, request bytes verbatim). Process options (warnings to syslog, a callback that returns non-zero after releasing the body) and connection plans ending in an asynchronous refusal are part of the programs; the request structure and its strings are released right after the call.',
+   note='Memory safety is observed by the sanitizers on the executions the specification generates (not proved); limits below 2^31; at most 450 interim responses / 1500 chunks per response; the Python concretiser is the encoder side of the oracle.',
+   technique='TLA+ model checking (TLC) of the life cycle + TLC-generated response structures replayed into the real code + trace validation against the TLA+ spec',
+   design='6/C08'),
  "C09": dict(
-   text='TLC model-checks the request life cycle against every transport outcome (specs/http/HttpAbs.tla: at most one callback, none after cancel, body within the limit, oversize shape, the bound addbody relies on) and generates the structures of well-formed responses from the grammar in HttpGen.tla (1xx interim blocks shorter and longer than the final header block, three framings, chunk plans up to above the 1 MiB wait cap, optional-whitespace forms, body sizes at/below/above the limit); these are concretised to bytes and, together with structured hostile mutations (bad/huge/negative/whitespace chunk sizes, missing CRLF, NUL bytes, >64 KiB headers, 1xx floods, buffer-edge alignment of empty lines, truncation, bit flips), sent under many segmentations (down to single bytes, EAGAIN/EINTR noise, EOF/error/stall endings, connection plans, cancellation instants) to the real http.c stack in a forked ASan/UBSan/LSan child on scripted sockets; TLC validates every trace against HttpTrace.tla, whose Decode operator is the C09 oracle and whose other guards are the C08 clauses (one callback, status range, body limit, oversize shape, no leak, request bytes verbatim).',
+   text='TLC model-checks the request life cycle against every transport outcome (specs/http/HttpAbs.tla: at most one callback, none after cancel, body within the limit, oversize shape, the bound addbody relies on) and generates the structures of well-formed responses from the grammar in HttpGen.tla (1xx interim blocks shorter and longer than the final header block, three framings, chunk plans up to above the 1 MiB wait cap, optional-whitespace forms, body sizes at/below/above the limit); these are concretised to bytes and, together with structured hostile mutations (bad/huge/negative/whitespace chunk sizes, missing CRLF, NUL bytes, >64 KiB headers, 1xx floods, buffer-edge alignment of empty lines, truncation, bit flips), sent under many segmentations (down to single bytes, EAGAIN/EINTR noise, EOF/error/stall endings, connection plans, cancellation instants) to the real http.c stack in a forked ASan/UBSan/LSan child on scripted sockets; TLC validates every trace against HttpTrace.tla, whose Decode operator is the C09 oracle and whose other guards are the C08 clauses (one callback, status range, body limit, oversize shape, no leak, request bytes verbatim). Header names that begin like a framing header, Content-Length values with leading zeros and header values ending in bytes >= 0x80 are generated.',
    note="Same machinery as C08 with the emphasis on well-formed responses (Decode oracle) and an independent seed; header blocks below the client's documented 64 KiB limit.",
-   technique="TLA+ model checking (TLC) of the life cycle + TLC-generated response structures replayed into the real code + trace validation against the TLA+ spec",
-   design="6/C09"),
+   technique='TLA+ model checking (TLC) of the life cycle + TLC-generated response structures replayed into the real code + trace validation against the TLA+ spec',
+   design='6/C09'),
  "C07": dict(
-   text="Exhaustive TLC model checking of the reader's window arithmetic (specs/netbuf/NbReadImpl.tla: growth, compaction, one read in flight credited at once, re-arm, cancel; every fragmentation and wait/consume/cancel order over a scaled buffer of 4) and of the writer's queue (NbWriteImpl.tla: coalescing, one write in flight, sticky failure; every accept fragmentation and failure point); behaviours simulated from both models are scaled by 1024 to the real 4096-byte buffers and, together with seeded random programs (waits from 1 to 5x4096 started from callbacks and from outside, cancel at arbitrary instants, write/reserve/consume sizes 0..3x4096, EAGAIN/EINTR/EOF/error positions), executed by the real netbuf/network/events code on scripted sockets; every trace is validated by TLC against NbTrace.tla (window content = peer stream from the first unconsumed byte, status clauses, prefix property of the writer, single failure callback).",
-   note="Assumes the application does not consume while a wait is pending; scripted sockets are the trusted environment; no SSL function pointers.",
-   technique="TLA+ model checking (TLC) + behaviours generated from the TLA+ models replayed into the real code + trace validation against the TLA+ spec",
-   design="6/C07"),
+   text="Exhaustive TLC model checking of the reader's window arithmetic (specs/netbuf/NbReadImpl.tla: growth, compaction, one read in flight credited at once, re-arm, cancel; every fragmentation and wait/consume/cancel order over a scaled buffer of 4) and of the writer's queue (NbWriteImpl.tla: coalescing, one write in flight, sticky failure; every accept fragmentation and failure point); behaviours simulated from both models are scaled by 1024 to the real 4096-byte buffers and, together with seeded random programs (waits from 1 to 5x4096 started from callbacks and from outside, cancel at arbitrary instants, write/reserve/consume sizes 0..3x4096, EAGAIN/EINTR/EOF/error positions), executed by the real netbuf/network/events code on scripted sockets; every trace is validated by TLC against NbTrace.tla (window content = peer stream from the first unconsumed byte, status clauses, prefix property of the writer, single failure callback). Apalache proves the reader's window arithmetic (Geometry, ReadFits, Accounting, Progress) inductive for every buffer size, wait length and segment size (NbReadGeom.tla).",
+   note='Assumes the application does not consume while a wait is pending; scripted sockets are the trusted environment; no SSL function pointers.',
+   technique='TLA+ model checking (TLC) + behaviours generated from the TLA+ models replayed into the real code + trace validation against the TLA+ spec',
+   design='6/C07'),
  "C06": dict(
-   text="Fault-sequence enumeration by TLC model checking: NetRW.tla enumerates every kernel answer sequence (data 1..4, EAGAIN, EINTR, EOF, hard error, every cancellation instant) of length <= 4 (5 thorough) for every (buflen <= 4, min) pair, NetConnect.tla every outcome plan of <= 3 addresses over 8 outcomes with and without per-address timeout and every cancellation instant; the design-level invariants (exactly one callback, range, EOF/error, first connected, losers closed) are checked on all of them and ALL enumerated cases are replayed against the real network_*.c on the real event loop with scripted sockets; plus seeded random long programs (64 KiB buffers, back-to-back requests from callbacks, concurrent read+write, accept scripts). Every trace is validated by TLC against NetTrace.tla.",
-   note="Kernel answers come from the scripted-socket layer (trusted environment model); getsockopt itself never fails; numeric addresses only.",
-   technique="TLA+ model checking (TLC) as exhaustive fault-sequence enumerator + trace validation against the TLA+ spec",
-   design="6/C06"),
+   text='Fault-sequence enumeration by TLC model checking: NetRW.tla enumerates every kernel answer sequence (data 1..4, EAGAIN, EINTR, EOF, hard error, every cancellation instant) of length <= 4 (5 thorough) for every (buflen <= 4, min) pair, NetConnect.tla every outcome plan of <= 3 addresses over 8 outcomes with and without per-address timeout and every cancellation instant; the design-level invariants (exactly one callback, range, EOF/error, first connected, losers closed) are checked on all of them and ALL enumerated cases are replayed against the real network_*.c on the real event loop with scripted sockets; plus seeded random long programs (64 KiB buffers, back-to-back requests from callbacks, concurrent read+write, accept scripts). Every trace is validated by TLC against NetTrace.tla. Timeouts are handed over in memory that is released right after the call.',
+   note='Kernel answers come from the scripted-socket layer (trusted environment model); getsockopt itself never fails; numeric addresses only.',
+   technique='TLA+ model checking (TLC) as exhaustive fault-sequence enumerator + trace validation against the TLA+ spec',
+   design='6/C06'),
  "C04": dict(
-   text="Exhaustive TLC model checking of the implementation-shaped model of the loop (specs/events/EventsImpl.tla: poll-array compaction, scan position, 32 immediate queues, timer set, calls from inside callbacks; every program and schedule inside the bound; the six invariants of events_network.c's comment block and the abstract guards of the property as ghost checks; the model with revents clearing switched off is required to fail). Programs are derived from that model by TLC: a shortest behaviour reaching each of 34 implementation situations (model checking for reachability) and thousands of simulated behaviours selected by situation-pair coverage; together with seeded random programs (nested callback scripts, 24.8-day timers, hundreds of descriptors) they are executed by the real events_*.c on a fake kernel (poll and clock interposed) and every execution is validated by TLC against the abstract trace specification EventsTrace.tla, each guard of which is one clause of the statement.",
-   note="Exhaustive only inside the MC constants (2 descriptors, <= 4 registrations, <= 5 calls); fake kernel is the trusted environment model (faithful POSIX poll semantics, single-threaded); EINTR from poll not simulated.",
-   technique="TLA+ model checking (TLC) + TLC-derived programs replayed into the real code + trace validation against the TLA+ spec",
-   design="6/C04"),
+   text="Exhaustive TLC model checking of the implementation-shaped model of the loop (specs/events/EventsImpl.tla: poll-array compaction, scan position, 32 immediate queues, timer set, calls from inside callbacks; every program and schedule inside the bound; the six invariants of events_network.c's comment block and the abstract guards of the property as ghost checks; the model with revents clearing switched off is required to fail). Programs are derived from that model by TLC: a shortest behaviour reaching each of 34 implementation situations (model checking for reachability) and thousands of simulated behaviours selected by situation-pair coverage; together with seeded random programs (nested callback scripts, 24.8-day timers, hundreds of descriptors) they are executed by the real events_*.c on a fake kernel (poll and clock interposed) and every execution is validated by TLC against the abstract trace specification EventsTrace.tla, each guard of which is one clause of the statement. Programs with 12..70 pending timers (ties, cancels and resets from inside callbacks) and single timers around INT_MAX milliseconds are included; the array given to poll is compared with the registered directions (implementation-level drift report).",
+   note='Exhaustive only inside the MC constants (2 descriptors, <= 4 registrations, <= 5 calls); fake kernel is the trusted environment model (faithful POSIX poll semantics, single-threaded); EINTR from poll not simulated.',
+   technique='TLA+ model checking (TLC) + TLC-derived programs replayed into the real code + trace validation against the TLA+ spec',
+   design='6/C04'),
  "C05": dict(
    text="Exhaustive TLC model checking of the implementation-shaped model of the loop (specs/events/EventsImpl.tla: poll-array compaction, scan position, 32 immediate queues, timer set, calls from inside callbacks; every program and schedule inside the bound; the six invariants of events_network.c's comment block and the abstract guards of the property as ghost checks; the model with revents clearing switched off is required to fail). Programs are derived from that model by TLC: a shortest behaviour reaching each of 34 implementation situations (model checking for reachability) and thousands of simulated behaviours selected by situation-pair coverage; together with seeded random programs (nested callback scripts, 24.8-day timers, hundreds of descriptors) they are executed by the real events_*.c on a fake kernel (poll and clock interposed) and every execution is validated by TLC against the abstract trace specification EventsTrace.tla, each guard of which is one clause of the statement.",
-   note="Same machinery as C04 with an independent seed; the order, progress, timeout and status clauses are guards of EventsTrace.tla (CbEnter, Poll, RunRet).",
-   technique="TLA+ model checking (TLC) + TLC-derived programs replayed into the real code + trace validation against the TLA+ spec",
-   design="6/C05"),
+   note='Same machinery as C04 with an independent seed; the order, progress, timeout and status clauses are guards of EventsTrace.tla (CbEnter, Poll, RunRet).',
+   technique='TLA+ model checking (TLC) + TLC-derived programs replayed into the real code + trace validation against the TLA+ spec',
+   design='6/C05'),
  "C12": dict(
-   text="Exhaustive TLC model checking of the array sizing policy with every realloc outcome (specs/ds/ElasticArray.tla: contents, capacity, factor-4 bound, failure leaves the array unchanged) and of the queue/map compaction rule (ElasticQueue.tla); programs generated by TLC simulation of those specifications plus seeded random programs (mixed record sizes, overflowing products, export, deletes in any order, 10^4 records, forked object-pool runs exiting through exit()) are executed by the real code and every trace is validated by TLC against the ideal array/queue/map/pool (ElasticTrace.tla); thorough adds the unbounded inductive invariant of the sizing policy in Apalache.",
-   note="Exhaustive only inside the MC constants; storage clause observed by ASan on the executions the specification generates; allocation sizes observed through the allocation wrapper.",
-   technique="TLA+ model checking (TLC) + trace validation of real executions against the TLA+ spec",
-   design="6/C12"),
+   text="Exhaustive TLC model checking of the array sizing policy with every realloc outcome (specs/ds/ElasticArray.tla: contents, capacity, factor-4 bound, failure leaves the array unchanged) and of the queue/map compaction rule (ElasticQueue.tla); programs generated by TLC simulation of those specifications plus seeded random programs (mixed record sizes, overflowing products, export, deletes in any order, 10^4 records, forked object-pool runs exiting through exit()) are executed by the real code and every trace is validated by TLC against the ideal array/queue/map/pool (ElasticTrace.tla); thorough adds the unbounded inductive invariant of the sizing policy in Apalache. Pool objects may be handed back by application exit handlers registered in the middle of the pool's use.",
+   note='Exhaustive only inside the MC constants; storage clause observed by ASan on the executions the specification generates; allocation sizes observed through the allocation wrapper.',
+   technique='TLA+ model checking (TLC) + trace validation of real executions against the TLA+ spec',
+   design='6/C12'),
  "C14": dict(
-   text="Fault enumeration driven by the specifications: for every base scenario (containers, heap, timer queue, object pool; event/I-O scenarios are added as their drivers land) the k-th library allocation fails for every k the scenario reaches, once and persistently; the run continues, releases everything and reports the live set; TLC validates every trace against the abstract specifications whose failure actions demand the documented failure value only when the allocator refused, UNCHANGED abstract state, success of cannot-fail operations, and no leak. ElasticArray.tla is model-checked exhaustively with every realloc outcome (FailUnchanged).",
-   note="Failures are injected at malloc/calloc/realloc referenced from library objects (link-time wrap); k is capped per scenario (reported in evidence).",
-   technique="TLA+ model checking (TLC) of *Fail actions + exhaustive-in-k fault injection with trace validation against the TLA+ spec",
-   design="6/C14"),
+   text='Fault enumeration driven by the specifications: for every base scenario (containers, heap, timer queue, object pool; event/I-O scenarios are added as their drivers land) the k-th library allocation fails for every k the scenario reaches, once and persistently; the run continues, releases everything and reports the live set; TLC validates every trace against the abstract specifications whose failure actions demand the documented failure value only when the allocator refused, UNCHANGED abstract state, success of cannot-fail operations, and no leak. ElasticArray.tla is model-checked exhaustively with every realloc outcome (FailUnchanged). Refused allocation indices are spread over the whole scenario (first, last and sampled middle ones), scenarios with 17 / 33 / 65 descriptors and interim responses with header lines get every index; two open known findings (F11, F12).',
+   note='Failures are injected at malloc/calloc/realloc referenced from library objects (link-time wrap); k is capped per scenario (reported in evidence).',
+   technique='TLA+ model checking (TLC) of *Fail actions + exhaustive-in-k fault injection with trace validation against the TLA+ spec',
+   design='6/C14'),
  "C13": dict(
-   text="Exhaustive TLC model checking of the heap algorithm (specs/ds/PtrHeap.tla: every history over 5-6 elements with duplicate keys, create-from-array from every array) and of the timer queue on top of it; then programs generated by TLC simulation of the same specification and seeded random programs (up to 3000 entries) are executed by the real ptrheap.c/timerqueue.c and every execution is validated by TLC against the abstract trace specification (least element, handle identity, release order, drain equals model).",
+   text='Exhaustive TLC model checking of the heap algorithm (specs/ds/PtrHeap.tla: every history over 5-6 elements with duplicate keys, create-from-array from every array) and of the timer queue on top of it; then programs generated by TLC simulation of the same specification and seeded random programs (up to 3000 entries) are executed by the real ptrheap.c/timerqueue.c and every execution is validated by TLC against the abstract trace specification (least element, handle identity, release order, drain equals model). Also heaps made without the record-cookie callback, mid-size heaps with deletions by handle in the middle, and timer-queue times up to 2^31 seconds apart.',
    note="Bounded: exhaustive only for the stated constants; beyond them sampled. Trusted: TLC, gcc sanitizers, the driver's bookkeeping of what it inserted.",
-   technique="TLA+ model checking (TLC) + trace validation of real executions against the TLA+ spec",
-   design="6/C13"),
+   technique='TLA+ model checking (TLC) + trace validation of real executions against the TLA+ spec',
+   design='6/C13'),
 }
 REASON_PENDING = "check under construction in this session (specification and harness not committed yet); see DESIGN.md section 6 for the planned decision procedure"
 
